@@ -5,6 +5,8 @@
 use vstd::prelude::*;
 verus! {
 global size_of usize == 8;
+//@extract consts src/blockchain/proto/script/custom.rs
+//@end
 
 //@include prelude/std_axioms.inc
 //@include prelude/opcodes.inc
